@@ -5,10 +5,12 @@ pid = sys.argv[1]
 wt = f"/tmp/wt-{pid}"
 r = subprocess.run(["python3", "/verif/tools/seedeval.py", pid, "quick"] + sys.argv[2:], stdout=subprocess.PIPE, text=True)
 res = json.loads(r.stdout)
-try:
-    meta = json.load(open(f"{wt}/meta.json"))
-except Exception:
-    meta = {"changes": []}
+meta = {"changes": []}
+for mf in ("meta.json", "meta2.json", "meta3.json"):
+    try:
+        meta["changes"] += json.load(open(f"{wt}/{mf}")).get("changes", [])
+    except Exception:
+        pass
 for n, ev in res.items():
     ok_demo = ev.get("demo_clean") == 0 and ev.get("demo_patched", 0) != 0
     ok_suite = bool(ev.get("suite")) and "missing_from_stable=0" in ev["suite"][0]
@@ -19,7 +21,7 @@ for n, ev in res.items():
     os.makedirs(d, exist_ok=True)
     shutil.copy(f"{wt}/patch{n}.diff", f"{d}/patch.diff")
     shutil.copy(f"{wt}/demo{n}.py", f"{d}/demo.py")
-    ch = next((c for c in meta.get("changes", []) if str(n) in c.get("patch", "")), {})
+    ch = next((c for c in meta.get("changes", []) if f"patch{n}." in c.get("patch", "")), {})
     detected_by = [pid] if ev.get("check_rc") == 1 else []
     for k, v in ev.items():
         if k.startswith("check_") and k.endswith("_rc") and k != "check_rc" and v == 1:
